@@ -246,7 +246,11 @@ def random_target_spec(rng, d, kind=None, kinds=TARGET_KINDS):
     spec = {"kind": kind, "dim": d}
     if kind in ("quadratic", "quartic", "cubic"):
         spec["A"] = enc(dy_spd(rng, d))
-    if kind == "quartic":
+    if kind == "doublewell":
+        # non-log-concave: negative definite quadratic part, confined by the quartic term; the Hessian has
+        # negative eigenvalues near the origin (SoftAbs metrics must handle them: seed C03-3)
+        spec["A"] = enc(-dy_spd(rng, d))
+    if kind in ("quartic", "doublewell"):
         spec["b"] = enc(dy(rng, (d,), 8, 0.125, 1.0))
     if kind == "cubic":
         spec["c"] = enc(dy(rng, (d,), 16, -0.25, 0.25))
@@ -259,9 +263,9 @@ def random_target_spec(rng, d, kind=None, kinds=TARGET_KINDS):
 
 def target_poly(spec) -> PolyTensor:
     d, kind = spec["dim"], spec["kind"]
-    if kind in ("quadratic", "quartic", "cubic"):
+    if kind in ("quadratic", "quartic", "cubic", "doublewell"):
         terms = quad_form_terms(d, arr(spec["A"]))
-        if kind == "quartic":
+        if kind in ("quartic", "doublewell"):
             for i, b in enumerate(arr(spec["b"])):
                 _add(terms, _unit(d, (i, 4)), 0.25 * b)
         if kind == "cubic":
@@ -610,7 +614,7 @@ def random_system_spec(rng, kind, dim=None, target_kind=None, metric_kind=None, 
     spec = {"kind": kind, "dim": dim, "aux": bool(rng.integers(2)) if aux is None else bool(aux)}
     tk = target_kind
     if kind == "riem_softabs" and tk is None:
-        tk = str(rng.choice(["quartic", "banana", "quadratic"]))
+        tk = str(rng.choice(["quartic", "banana", "quadratic", "doublewell", "doublewell"]))
     spec["target"] = random_target_spec(rng, dim, tk)
     if kind in TRACTABLE_KINDS:
         spec["metric"] = random_metric_spec(rng, dim, metric_kind)
